@@ -47,9 +47,39 @@ pub struct Scn {
     /// slot, as tower's ConcurrencyLimit does); only the window rules are applied then
     #[serde(default)]
     pub inner_capacity: Option<u32>,
+    /// microseconds added to the period (periods need not be whole milliseconds)
+    #[serde(default)]
+    pub period_frac_us: u32,
+    /// 0 ordinary; 1 = sliding log with a limit of 66-100 and three big bursts; 2 = one caller
+    /// every millisecond for 200ms against limit 1 and a fractional-millisecond period
+    #[serde(default)]
+    pub big: u8,
+}
+
+fn gen_big(rng: &mut Rng) -> Scn {
+    let plain = |start_ms: u64| Caller { start_ms, lat_ms: 0, err: false, cancel: CancelSpec::Never, svc: 0 };
+    if rng.chance(1, 2) {
+        // an older burst has left the window, a younger one is still inside it
+        let limit = rng.range(66, 100) as u32;
+        let p = 50u64;
+        let (k1, k2) = (limit / 2, limit / 2 - rng.below(5) as u32);
+        let mut callers = vec![];
+        callers.extend((0..k1).map(|_| plain(0)));
+        callers.extend((0..k2).map(|_| plain(p / 2)));
+        callers.extend((0..limit).map(|_| plain(p + p / 5)));
+        Scn { window: 1, limit, period_ms: p, timeout_ms: 0, listener_panic: false, callers, knobs: SchedKnobs::gen(rng, false, 100), two_services: false, order: 0, inner_capacity: None, period_frac_us: 0, big: 1 }
+    } else {
+        // many saturated windows in a row, period not a whole number of milliseconds
+        let window = *rng.pick(&[0u8, 0, 2]);
+        let callers = (0..200u64).map(plain).collect();
+        Scn { window, limit: 1, period_ms: 10, timeout_ms: 0, listener_panic: false, callers, knobs: SchedKnobs::gen(rng, false, 100), two_services: false, order: 0, inner_capacity: None, period_frac_us: *rng.pick(&[900u32, 500, 333]), big: 2 }
+    }
 }
 
 pub fn gen(rng: &mut Rng) -> Scn {
+    if rng.chance(1, 40) {
+        return gen_big(rng);
+    }
     let window = rng.below(3) as u8;
     // u32::MAX stands for usize::MAX ("no limit" written as a number of permits)
     let limit = if rng.chance(1, 12) { u32::MAX } else { rng.range(1, 4) as u32 };
@@ -97,6 +127,8 @@ pub fn gen(rng: &mut Rng) -> Scn {
     }
     Scn {
         inner_capacity,
+        period_frac_us: 0,
+        big: 0,
         order: if rng.chance(1, 3) { rng.next_u64() | 1 } else { 0 },
         two_services,
         window,
@@ -112,12 +144,14 @@ pub fn gen(rng: &mut Rng) -> Scn {
 pub fn valid(s: &Scn) -> bool {
     s.window <= 2
         && s.limit >= 1
-        && (s.limit <= 6 || s.limit == u32::MAX)
+        && (s.limit <= 6 || s.limit == u32::MAX || (s.big == 1 && s.limit <= 128))
+        && s.big <= 2
+        && s.period_frac_us <= 999
         && s.period_ms >= 5
         && s.period_ms <= 100
         && (s.timeout_ms <= 400 || s.timeout_ms == u64::MAX)
         && !s.callers.is_empty()
-        && s.callers.len() <= 20
+        && (s.callers.len() <= 20 || (s.big > 0 && s.callers.len() <= 320 && s.callers.iter().all(|c| c.cancel == CancelSpec::Never)))
         && s.callers.iter().all(|c| c.start_ms <= 2000 && (c.lat_ms <= 50 || s.inner_capacity.is_some()))
         && s.knobs.jumps.len() <= 3
         && s.knobs.jumps.iter().all(|j| j.0 <= 1000 && j.1 <= 200)
@@ -197,7 +231,7 @@ pub fn run(s: &Scn, ctx: &mut RunCtx, prefix: &'static str) -> RunOutput {
         for k in order {
             b = match k {
                 0 => b.limit_for_period(count(scn.limit)),
-                1 => b.refresh_period(Duration::from_millis(scn.period_ms)),
+                1 => b.refresh_period(Duration::from_micros(scn.period_ms * 1000 + scn.period_frac_us as u64)),
                 2 => b.timeout_duration(if scn.timeout_ms == u64::MAX { Duration::MAX } else { Duration::from_millis(scn.timeout_ms) }),
                 _ => b.window_type(match scn.window {
                     0 => WindowType::Fixed,
@@ -254,7 +288,7 @@ pub fn run(s: &Scn, ctx: &mut RunCtx, prefix: &'static str) -> RunOutput {
     let calls: Vec<_> = all_calls.iter().filter(|c| c.svc == k).cloned().collect();
     let mine_task = |i: usize| s.callers.get(i).map(|c| c.svc == k).unwrap_or(false);
     let jump = s.knobs.total_jump() * 1000;
-    let p = s.period_ms * 1000;
+    let p = s.period_ms * 1000 + s.period_frac_us as u64;
     // ("no limit": more permits than there are callers)
     let l = if s.limit == u32::MAX { s.callers.len() + 1 } else { s.limit as usize };
     let tout = s.timeout_ms.saturating_mul(1000);
@@ -354,6 +388,18 @@ pub fn run(s: &Scn, ctx: &mut RunCtx, prefix: &'static str) -> RunOutput {
         } else {
             false
         };
+        // sliding log: admitted on arrival although `limit` earlier admissions are still strictly
+        // inside the window: there was no spare capacity
+        if s.window == 1 && jump == 0 {
+            let inside = calls.iter().filter(|c| c.start_seq < t.first_poll_seq && c.start_us + p > a).count();
+            if inside >= l && mine.first().map(|m| m.start_us == a).unwrap_or(false) {
+                world::violation(
+                    "C15.admit_at_once",
+                    "no_capacity",
+                    format!("caller {} arrived at {}us with {} admissions still inside the last period (limit {}) and was admitted at once; {}", i, a, inside, l, detail()),
+                );
+            }
+        }
         // idle rule (all window types): nothing happened in the 2 periods before this instant
         let quiet = !activity.iter().any(|(tu, _)| *tu < a && *tu + 2 * p >= a) && a >= 2 * p;
         let same_instant_before = calls.iter().filter(|c| c.start_seq < t.first_poll_seq && c.start_us == a).count();
